@@ -209,6 +209,10 @@ fn op_parse<T: Kind>(req: &Value) -> Value {
             let cn = p.combined_name().to_string();
             let b = purl::Purl::builder_with_combined_name(*p.package_type(), cn.as_str());
             v["combined_again"] = json!({"combined": hx(&cn), "ns": hx(&b.parts.namespace), "name": hx(&b.parts.name)});
+            v["combined_again"]["built"] = match b.build() {
+                Ok(q) => json!({"ns": q.namespace().map(hx), "name": hx(q.name())}),
+                Err(e) => json!({"err": <purl::PackageType as Kind>::err_name(&e)}),
+            };
         }
     }
     v
@@ -280,6 +284,15 @@ fn op_build<T: Kind>(req: &Value) -> Value {
                     Err(e) => return json!({"err": format!("try_with_typed_qualifier:{}", parse_err_name(&e))}),
                 }
             },
+            "typed_model" => {
+                let v = a(2);
+                match a(1).as_str() {
+                    "K" => b.with_typed_qualifier(Some(quals::MqK(v))),
+                    "k" => b.with_typed_qualifier(Some(quals::Mqk(v))),
+                    "Ab" => b.with_typed_qualifier(Some(quals::MqAb(v))),
+                    _ => b.with_typed_qualifier(Some(quals::MqBad(v))),
+                }
+            },
             "repository_url" => b.with_typed_qualifier(Some(purl::qualifiers::well_known::RepositoryUrl::from(
                 &*Box::leak(a(1).into_boxed_str()),
             ))),
@@ -329,8 +342,21 @@ fn op_pair<T: Kind>(req: &Value) -> Value {
         Err(e) => return json!({ "b_err": e }),
     };
     let (da, db) = (a.to_string(), b.to_string());
-    json!({"eq": a == b, "disp_eq": da == db, "hash_eq": hash_of(&a) == hash_of(&b), "cmp_ab": a.cmp(&b) as i8,
-           "cmp_ba": b.cmp(&a) as i8, "pcmp_ab": a.partial_cmp(&b).map(|o| o as i8), "disp_a": hx(&da), "disp_b": hx(&db)})
+    let mut out = json!({"eq": a == b, "disp_eq": da == db, "hash_eq": hash_of(&a) == hash_of(&b), "cmp_ab": a.cmp(&b) as i8,
+           "cmp_ba": b.cmp(&a) as i8, "pcmp_ab": a.partial_cmp(&b).map(|o| o as i8), "disp_a": hx(&da), "disp_b": hx(&db)});
+    // a third value: the comparisons transitivity speaks about
+    if !req["c"].is_null() {
+        match make::<T>(&req["c"]) {
+            Ok(c) => {
+                out["cmp_bc"] = json!(b.cmp(&c) as i8);
+                out["cmp_ac"] = json!(a.cmp(&c) as i8);
+                out["eq_bc"] = json!(b == c);
+                out["eq_ac"] = json!(a == c);
+            },
+            Err(e) => out["c_err"] = json!(e),
+        }
+    }
+    out
 }
 
 /// JSON round trip through serde_json: deserialise the JSON text `json` (hex), re-serialise the value
@@ -362,6 +388,11 @@ where
     let js = unhex(&req["json"]);
     match serde_json::from_str::<GenericPurl<T>>(&js) {
         Ok(p) => {
+            if req["after_failure"] == true {
+                // a serialisation that fails on this thread first (a sink too small for the value), as C16 quantifies over any history
+                let mut tiny = [0u8; 4];
+                let _ = serde_json::to_writer(&mut tiny[..], &p);
+            }
             let back = serde_json::to_string(&p).unwrap();
             let direct = T::parse(&match serde_json::from_str::<String>(&js) { Ok(s) => s, Err(_) => String::new() });
             let same = match direct { Some(Ok(q)) => q == p, _ => false };
@@ -475,6 +506,10 @@ fn handle(req: &Value) -> Value {
                     let cn = p.combined_name().to_string();
                     let b2 = purl::Purl::builder_with_combined_name(t, cn.as_str());
                     v["combined_again"] = json!({"combined": hx(&cn), "ns": hx(&b2.parts.namespace), "name": hx(&b2.parts.name)});
+                    v["combined_again"]["built"] = match b2.build() {
+                        Ok(q) => json!({"ns": q.namespace().map(hx), "name": hx(q.name())}),
+                        Err(e) => json!({"err": <purl::PackageType as Kind>::err_name(&e)}),
+                    };
                 }
             }
             v["expect_lower"] = json!(hx(&name_lower(&name)));
@@ -482,6 +517,7 @@ fn handle(req: &Value) -> Value {
             v
         },
         "quals" => quals::run(req),
+        "keycmp" => quals::keycmp(req),
         "checksum" => quals::run_checksum(req),
         #[cfg(feature = "pt")]
         "combined" => quals::combined(req),
